@@ -185,6 +185,33 @@ func c04Run(p c04Params, ch vrt.Chooser, trace bool) (*world.World, *vrt.Exec, *
 	return w, e, o
 }
 
+// cutByPeer reports whether the incomplete message at the end of what corebgp wrote on c was cut by the
+// environment rather than by corebgp: the bytes of the fragment were written by one goroutine, that
+// goroutine's next write on the connection was refused because the peer had reset the connection or gone
+// away, and nothing was written after that. The peer cannot have read such a fragment as anything but the
+// start of a message it will never see the end of. (A tree may hand one message to the connection in more
+// than one Write; what TCP delivers of a message in flight when the connection dies is not corebgp's doing.
+// A fragment followed by other bytes, or cut by corebgp's own Close while the peer still listens, is.)
+func cutByPeer(c *vnet.Conn, rest []byte) bool {
+	if len(rest) == 0 || c.RstCutAt != len(c.Sent) {
+		return false
+	}
+	for i := 0; i < len(rest) && i < 16; i++ {
+		if rest[i] != 0xff {
+			return false
+		}
+	}
+	n, g := 0, ""
+	for i := len(c.Chunks) - 1; i >= 0 && n < len(rest); i-- {
+		if g != "" && c.Chunks[i].G != g {
+			return false
+		}
+		g = c.Chunks[i].G
+		n += len(c.Chunks[i].B)
+	}
+	return true
+}
+
 func c04Judge(p c04Params, w *world.World, e *vrt.Exec, o *c04Obs) (string, string) {
 	// which connection carries which session
 	sessConn := map[int]*vnet.Conn{}
@@ -201,7 +228,7 @@ func c04Judge(p c04Params, w *world.World, e *vrt.Exec, o *c04Obs) (string, stri
 		if err != nil {
 			return "malformed-output", fmt.Sprintf("%s: bytes written by corebgp are not a sequence of well-formed messages: %v", c, err)
 		}
-		if len(rest) > 0 {
+		if len(rest) > 0 && !cutByPeer(c, rest) {
 			return "partial-message", fmt.Sprintf("%s: the byte stream written by corebgp ends inside a message (%d stray bytes)", c, len(rest))
 		}
 		for i, m := range ms {
@@ -419,6 +446,11 @@ func c04Scenarios(th bool) []*Scn {
 				if th && (mode == "free1" || mode == "free2") && hold == 9 {
 					b = bound + 1
 				}
+				if !th && mode == "free1" && hold == 9 && (ev == "hdr-fault" || ev == "notif-rx") {
+					// corebgp writes (a NOTIFICATION) or closes by itself while a plugin goroutine is inside
+					// WriteUpdate: a message handed over in two Writes shows between them, one delay deeper
+					b = bound + 1
+				}
 				out = append(out, c04Scn(c04Params{mode: mode, event: ev, hold: hold}, b))
 				if (mode == "free1" || mode == "free2") && ev != "none" && hold == 9 {
 					out = append(out, c04Scn(c04Params{mode: mode, event: ev, hold: hold, join: true}, bound))
@@ -538,7 +570,7 @@ func c04TwoPeersJudge(w *world.World, okWrites map[string][][]byte) (string, str
 		if err != nil {
 			return "malformed-output", fmt.Sprintf("%s (%s): bytes written by corebgp are not a sequence of well-formed messages: %v", c, peer, err)
 		}
-		if len(rest) > 0 {
+		if len(rest) > 0 && !cutByPeer(c, rest) {
 			return "partial-message", fmt.Sprintf("%s (%s): the byte stream ends inside a message (%d stray bytes)", c, peer, len(rest))
 		}
 		for _, m := range ms {
